@@ -264,6 +264,11 @@ def box_data(spec, lv, bid, k):
         # a NaN stored in cells of a fine box (lying over finite coarse data): it is data like any other value
         out = np.array(out, dtype="float64"); n_ = out.size
         out.flat[0] = np.nan; out.flat[n_ // 2] = np.nan
+    if pl == "huge":
+        # finite values beyond the largest single-precision number, and infinities, in a few cells
+        out = np.array(out, dtype="float64"); n_ = out.size
+        out.flat[0] = [1e40, -1e40, np.inf, -np.inf, 3.5e38][(bid + k + lv) % 5]
+        out.flat[n_ // 2] = [np.inf, 1e300, -3.4028236e38][(bid + k) % 3]
     if pl == "fab-bytes" and k >= 1:
         # a finite value whose eight bytes hold the characters "FAB (" (no FAB header starts there: a header is a whole line)
         out = np.array(out, dtype="float64")
@@ -369,7 +374,11 @@ def header_text(spec, nlev=None):
     grid = [[g * R ** lv for g in spec["grid0"]] for lv in range(nlev)]
     dx = [[x / R ** lv for x in spec["dx0"]] for lv in range(nlev)]
     geo_high = [spec["geo_low"][d] + spec["dx0"][d] * spec["grid0"][d] for d in range(nd)]
-    if spec.get("nominal_hi"):
+    if spec.get("nominal_hi") == "below":
+        # ... or the other way round: the stated domain bound (0.23) lies one unit in the last place BELOW the face the
+        # writer computes for the last box (0.0 + 12 * (0.23 / 12) = 0.23000000000000004)
+        geo_high = [min(x, float(f"{x:.12g}")) for x in geo_high]
+    elif spec.get("nominal_hi"):
         # a code that prints the domain bound it was given (0.9) next to box bounds it computes (0.2 + 10 * 0.07 =
         # 0.8999999999999999): the two differ in the last place
         geo_high = [max(x, float(f"{x:.12g}")) for x in geo_high]
@@ -461,12 +470,13 @@ def materialize(spec, path, nlev=None):
             for bid in range(len(boxes)):
                 ch.write(f"FabOnDisk: {fnames[bid]} {offsets[bid]}\n")
             ch.write(f"\n{len(boxes)},{nf}\n")
+            rfmt = (lambda m: f"{m:.{int(spec['rows_digits']) - 1}e}") if spec.get("rows_digits") else (lambda m: f"{m:.16e}")
             for bid in range(len(boxes)):
-                ch.write(",".join(f"{m:.16e}" for m in mins[bid]) + ",\n")
+                ch.write(",".join(rfmt(m) for m in mins[bid]) + ",\n")
             ch.write(f"\n{len(boxes)},{nf}\n")
             for bid in range(len(boxes)):
                 last = spec.get("cellh_no_final_newline") and bid == len(boxes) - 1
-                ch.write(",".join(f"{m:.16e}" for m in maxs[bid]) + ("," if last else ",\n"))
+                ch.write(",".join(rfmt(m) for m in maxs[bid]) + ("," if last else ",\n"))
             if not spec.get("cellh_no_final_newline"):
                 ch.write("\n")
     return truth
@@ -485,6 +495,18 @@ def halving_breaks(digits=15, n=3, nlev=2):
             if len(out) == n:
                 break
     return out
+
+
+def ulp_above(n):
+    """(lo, dx) such that the computed upper bound lo + n*dx is a float just ABOVE its 12-digit decimal (None if none of the
+    candidates does it for this n)"""
+    for lo in (0.0, 0.2, 0.1, -0.3, 1.1, 0.7, -1.3):
+        for L in (0.23, 0.07, 0.3, 0.011, 0.13, 0.0007, 0.9, 0.21, 1.7):
+            dx = L / n
+            x = lo + n * dx
+            if x > float(f"{x:.12g}"):
+                return lo, dx
+    return None
 
 
 def ulp_below(n):
